@@ -11,6 +11,7 @@ IMPORTS = "From DC Require Import Model.Base Model.Loc Model.Bio Model.Pattern M
 CASE_TYPE = "case04"
 CHECKER = "check04"
 SHOW = "model04"
+SHARD = 130
 RULE = ("random sets of 1-4 nucleotide-restricting constraints (AvoidChanges location/indices, EnforceTranslation both strands and "
         "all start-codon policies, EnforceSequence IUPAC both strands, EnforceChoice, EnforceChanges, AvoidRareCodons), overlapping, "
         "nested, antisense and contradictory, on sequences of length 6-8 (brute-forced over all 4^L sequences) and 12-30 (correspondence); "
@@ -27,7 +28,10 @@ def gen_hard(rng, seq):
     for _ in range(rng.choice([1, 2, 2, 3, 4])):
         r = rng.random()
         if r < 0.2:
-            if rng.random() < 0.7:
+            r2 = rng.random()
+            if r2 < 0.2:
+                cs.append(("AvoidChanges", kw(location=rloc(rng, n, strands=(0, 1), minlen=3), max_edits_percent=rng.choice([1, 10, 34, 50]))))
+            elif r2 < 0.7:
                 cs.append(("AvoidChanges", kw(location=rloc(rng, n, strands=(0, 1, -1)))))
             else:
                 cs.append(("AvoidChanges", kw(indices=tuple(sorted(rng.sample(range(n), rng.randint(1, min(4, n))))))))
@@ -147,6 +151,8 @@ def oracle(case, out):
 
 def coq_case(case, out):
     o = out[1]
+    if sum(len(vs) for _, _, vs in o["choices"]) > 3000:
+        return None     # the literal would be megabytes; the L3 oracle still judged this case
     return "KSpace %s %s %s" % (clist(["(%s, %s)" % (t, cbool(p)) for t, p in o["terms"]]), cseq(case[1]),
                                 clist(["(%s, %s, %s)" % (cz(a), cz(b), clist([cseq(v) for v in vs])) for a, b, vs in o["choices"]]))
 
